@@ -74,7 +74,9 @@ func init() {
 					return
 				}
 				inside := vfPeerInNets(rr.Peer, rr.From.Nets)
-				mapped := strings.HasPrefix(strings.ToLower(rr.Peer), "::ffff:")
+				if strings.HasPrefix(strings.ToLower(rr.Peer), "::ffff:") {
+					w.probe("refresh-mapped-peer")
+				}
 				if inside {
 					w.probe("refresh-inside")
 				} else {
@@ -84,7 +86,7 @@ func init() {
 				if resp.Panic != nil {
 					w.violate("C11", "crash-on-extension", "crash:refresh", fmt.Sprintf("refresh handler panicked: %v", resp.Panic))
 				}
-				if inside && !issued && !mapped && ctx.req.Method == "POST" && w.cleanWindow() && time.Now().Before(rr.From.Exp) && rr.From.Forged == "" {
+				if inside && !issued && ctx.req.Method == "POST" && w.cleanWindow() && time.Now().Before(rr.From.Exp) && rr.From.Forged == "" {
 					w.violate("C11", "refused-inside", fmt.Sprintf("refused-inside:%d", resp.Code),
 						fmt.Sprintf("refresh from %s inside %v was answered %d", rr.Peer, rr.From.Nets, resp.Code))
 				}
